@@ -858,3 +858,85 @@ func runRX1(c *load.Ctx, r *report.RuleResult) {
 		r.OK("regexexample|generateExample", pos, fmt.Sprintf("%d return(s): nil or the unchanged sample", n))
 	}
 }
+
+// --- C03: conflicting additionalProperties of allOf parents -----------------------------------------------
+
+func init() {
+	register(&Rule{ID: "T-apeq", Min: 1, Run: runTApEq,
+		Doc: "two additionalProperties rules are the same rule only if they are of the same mode: AdditionalProperties.IsEqual — the test by which the allOf compiler detects conflicting rules of a child and its parents — interpreted with the two modes, schema types and type names as atoms, answers true only on paths on which it found the modes equal, the schema types equal and the type names equal (otherwise `true` inherited under `false` passes for agreement and one of the two silently wins)"})
+}
+
+func runTApEq(c *load.Ctx, r *report.RuleResult) {
+	fn := c.Func(pkgConstraint, "AdditionalProperties.IsEqual")
+	apT := namedType(c, pkgConstraint, "AdditionalProperties")
+	if fn == nil || apT == nil {
+		r.Unk("anchor|constraint.AdditionalProperties.IsEqual", "", "not found")
+		return
+	}
+	pos := c.Pos(fn.Pos())
+	e := newTableEnv(c)
+	if f := c.Func(pkgBytes, "Bytes.String"); f != nil {
+		e.cfg.Intrinsics[f.String()] = func(in *pe.Interp, args []pe.Value) (pe.Value, bool) {
+			return pe.NewSym(strings.Trim(pe.Show(args[0]), "‹›"), types.Typ[types.String]), true
+		}
+	}
+	mk := func(in *pe.Interp, tag string) pe.Value {
+		st := apT.Underlying().(*types.Struct)
+		sv := &pe.StructV{T: apT, F: make([]pe.Value, st.NumFields())}
+		for i := 0; i < st.NumFields(); i++ {
+			sv.F[i] = pe.NewSym(tag+"."+st.Field(i).Name(), st.Field(i).Type())
+		}
+		return sv
+	}
+	outs := pe.ExploreFn(e.cfg, func(in *pe.Interp) pe.Value {
+		return in.Call(fn, []pe.Value{mk(in, "a"), mk(in, "b")})
+	})
+	var problems []string
+	trues := 0
+	for _, o := range outs {
+		if o.Undecided != "" || o.Panicked {
+			problems = append(problems, "not interpretable: "+o.Exit())
+			continue
+		}
+		res, ok := o.Ret.(bool)
+		if !ok {
+			problems = append(problems, "result is not a decided boolean on path {"+o.Valuation()+"}: "+pe.Show(o.Ret))
+			continue
+		}
+		if !res {
+			continue
+		}
+		trues++
+		val := o.ChoiceMap()
+		// which fields were found equal on this path
+		equal := map[string]bool{}
+		for k, v := range val {
+			for _, f := range []string{"mode", "schemaType", "typeName"} {
+				if strings.Contains(k, "a."+f) && strings.Contains(k, "b."+f) && (v == "true" || v == "=") {
+					equal[f] = true
+				}
+			}
+		}
+		// enum atoms are concretised one by one: equal modes show as the same member chosen twice
+		if val["a.mode"] != "" && val["a.mode"] == val["b.mode"] {
+			equal["mode"] = true
+		}
+		for _, f := range []string{"mode", "schemaType", "typeName"} {
+			if !equal[f] {
+				problems = append(problems, fmt.Sprintf("answers true on path {%s} without having found the two rules' %s equal", o.Valuation(), f))
+			}
+		}
+	}
+	if trues == 0 {
+		problems = append(problems, "never answers true")
+	}
+	sort.Strings(problems)
+	if len(problems) > 0 {
+		if len(problems) > 3 {
+			problems = append(problems[:3], fmt.Sprintf("… and %d more", len(problems)-3))
+		}
+		r.Bad("apeq|AdditionalProperties.IsEqual", pos, strings.Join(uniq(problems), "; "))
+	} else {
+		r.OK("apeq|AdditionalProperties.IsEqual", pos, fmt.Sprintf("%d paths, %d answer true, each after finding mode, schema type and type name equal", len(outs), trues))
+	}
+}
